@@ -1,3 +1,7 @@
+pub mod c05;
+pub mod c06;
+pub mod c10;
+pub mod c20;
 pub mod common;
 pub mod group;
 pub mod pairs;
@@ -14,6 +18,10 @@ pub fn get(id: &str) -> Option<Box<dyn Monitor>> {
         "C04" => Some(Box::new(pairs::PairMonitor { prop: "C04" })),
         "C11" => Some(Box::new(pairs::PairMonitor { prop: "C11" })),
         "C12" => Some(Box::new(pairs::PairMonitor { prop: "C12" })),
+        "C05" => Some(Box::new(c05::C05)),
+        "C06" => Some(Box::new(c06::C06::new())),
+        "C10" => Some(Box::new(c10::C10)),
+        "C20" => Some(Box::new(c20::C20)),
         _ => None,
     }
 }
